@@ -20,6 +20,7 @@ EXPLANATION = (
     "pkg.sub_a.<m|_m|xm>.<f|_f> with imports of every form (name, alias, private alias, star, module, module alias, "
     "absolute name) written in the package's or the root's __init__, against a one-directional oracle: private and not "
     "re-exported => private; re-exported under a public name => public."
+    ' The import forms include relative imports that reach through a sub-package (from .sub_a.m import f [as g], from .sub_a.m import *) written in the root __init__.'
 )
 ASSUMPTIONS = [
     "K: _check_publicity_in_reexports is stubbed to return None (no re-export); the re-export logic is covered by the "
